@@ -104,6 +104,7 @@ type Context struct {
 	ClientSocketPace                    *value.Integer
 	ClientSessTimeout                   *value.RTime
 	EsiAllowInsideCData                 *value.Boolean
+	GeoIPUseXForwardedFor               *value.Boolean
 	EnableRangeOnPass                   *value.Boolean
 	EnableSegmentedCaching              *value.Boolean
 	EnableSSI                           *value.Boolean
@@ -228,6 +229,7 @@ func New(options ...Option) *Context {
 		ClientSocketPace:                &value.Integer{},
 		ClientSessTimeout:               &value.RTime{Value: time.Minute * 10},
 		EsiAllowInsideCData:             &value.Boolean{},
+		GeoIPUseXForwardedFor:           &value.Boolean{},
 		EnableRangeOnPass:               &value.Boolean{},
 		EnableSegmentedCaching:          &value.Boolean{},
 		EnableSSI:                       &value.Boolean{},
